@@ -161,6 +161,23 @@ def file_read(x, fm, off, dest_len, eof_mode):
             inside = z3.simplify(z3.If(z3.UGE(pos, flen), bv64(0), flen - pos))
             tail_zero = z3.simplify(remaining - inside)
             remaining = inside
+    # fast path: a read that starts at or beyond everything ever written to the file returns zeros
+    pos_c = z3.simplify(pos)
+    if z3.is_bv_value(pos_c) and tail_zero is None:
+        pc = pos_c.as_long()
+        zf = getattr(fm, 'zero_from', None)
+        if zf is not None and zf[1] == len(fm.extents) and pc >= zf[0]:
+            return [Zeros(remaining)]
+        if fm.extents and (zf is None or zf[1] != len(fm.extents) or pc < zf[0]):
+            hw = bv64(0)
+            for eoff, c, _ in fm.extents:
+                end = eoff + clen(c)
+                hw = z3.If(z3.UGT(end, hw), end, hw)
+            if x.valid(z3.ULE(hw, pos)):
+                fm.zero_from = (pc if zf is None or zf[1] != len(fm.extents) else min(pc, zf[0]), len(fm.extents))
+                return [Zeros(remaining)]
+        elif not fm.extents:
+            return [Zeros(remaining)]
     out = []
     guard = 0
     while True:
